@@ -202,3 +202,6 @@ func vfSprint(args ...interface{}) string { return fmt.Sprint(args...) }
 // vfHooks is filled by generated hook files (native replay of replaced callees).
 var vfHooks = map[string]func(f interface{}){}
 
+
+// vfIsConcrete reports whether every byte is a concrete value (always true natively).
+func vfIsConcrete(b []byte) bool { return true }
